@@ -266,7 +266,12 @@ class QuadricTensor(ProjectiveTensor, ABC):
     @property
     def dual(self) -> QuadricTensor:
         """The dual quadric."""
-        return type(self)(inv(self.array), is_dual=not self.is_dual, copy=False)
+        result = self.copy()
+        result.array = inv(self.array)
+        result.is_dual = not self.is_dual
+        result._covariant_indices = self._contravariant_indices
+        result._contravariant_indices = self._covariant_indices
+        return result
 
 
 class Quadric(QuadricTensor, BoundTensor):
